@@ -19,7 +19,8 @@ EXPLANATION = (
     "inverses; (R5) disabled => no write at all; (R6) column/row norms feed the right work vector."
     " R4 also: no pass of the composite cone loop skips the per-cone rectification for a cone type whose own rectification is not the no-op (skip condition evaluated per cone type from constant layout predicates)."
     " R4 also: for the scalar cones (zero, nonnegative) the own rectification is the no-op, so their all-zero rows stay unscaled."
-    " (R9) the sparse scaling primitives the invariant relies on multiply every stored entry by l[row] r[col] (C16.R4 re-run).")
+    " (R9) the sparse scaling primitives the invariant relies on multiply every stored entry by l[row] r[col] (C16.R4 re-run)."
+    ' R4 also: the composite rectification has no return that bypasses its cone loop (no shortcut on cone counts or layout flags).')
 ASSUMPTIONS = ['rustc MIR construction and trait resolution are correct',
                'algebra primitives (lrscale, hadamard, col_norms, clip, mean ...) have their documented meaning',
                'the mean of values inside [lo,hi] lies inside [lo,hi]']
@@ -269,6 +270,10 @@ def rectification(rep, F, tag):
                     hit.append(K)
             R.check(not hit, 'composite-every-cone' + tag, 'a pass of the composite cone loop skips rectify_equilibration under %s, which can hold for %s: those cones keep '
                     'non-uniform row scalings (their own rectification is not the no-op)' % ({k[:60]: v for k, v in conds.items()}, hit), cc.loc())
+        for val, ret, ev, tr in leaves:
+            if ret[0] not in ('cut', 'diverge'):
+                R.check(any(k.startswith('discr(next(') and '@Some' not in k for k in val), 'composite-no-shortcut' + tag,
+                        'CompositeCone::rectify_equilibration returns on the path %s without visiting its cones: whether rectification is needed is each cone\'s own answer' % {k[:50]: v for k, v in val.items()}, cc.loc())
         R.check(n_it >= 1, 'composite-loop' + tag, 'no cone loop iteration found in CompositeCone::rectify_equilibration', cc.loc())
         # OR of the results
         ors = [canon(cc.sym_rvalue(st['rv'])) for bi, si, st in cc.assignments() if st['rv']['k'] == 'bin' and st['rv']['op'] in ('BitOr',)]
